@@ -68,6 +68,12 @@ def effect (n : Mn) (dstRt : Nat) (srcBytes : Nat) : Option (Ext × Nat × Nat) 
   | .ldrsb => some (.sign, 1, regBytes dstRt)
   | .ldrsh => some (.sign, 2, regBytes dstRt)
   | .ldrsw => some (.sign, 4, regBytes dstRt)
+  | .sxtb => some (.sign, 1, regBytes dstRt)
+  | .sxth => some (.sign, 2, regBytes dstRt)
+  | .sxtw => some (.sign, 4, regBytes dstRt)
+  | .uxtb => some (.zero, 1, 8)
+  | .uxth => some (.zero, 2, 8)
+  | .fcvt => if regBytes dstRt = 8 then some (.fwiden, srcBytes, 8) else some (.fnarrow, srcBytes, regBytes dstRt)
   | .movzx => some (.zero, srcBytes, 8)
   | .ldrb => some (.zero, 1, 8)
   | .ldrh => some (.zero, 2, 8)
